@@ -1,3 +1,4 @@
+import QcoVerif.Lemmas.DefinedExample
 import QcoVerif.Lemmas.TimingSrc
 import QcoVerif.Lemmas.C10Timing
 import QcoVerif.Lemmas.Graph
@@ -394,6 +395,372 @@ def exWorld : World :=
 
 example : evStart exWorld 10 1 = some 8 ∧ evEnd exWorld 10 1 = some 24 := by decide +kernel
 
+
+
+/-! ### definedness on heaps with an acyclicity certificate (Lemmas/Defined.lean, Lemmas/DefinedBuild.lean)
+
+  `Defined.Ranked w rk`: the rank `rk` of the objects strictly decreases from an object to every reference of its
+  link and from a composite to every node of its graph.  `Defined.Closed w`: every reference / node / link field
+  names an existing object / link.  `Defined.Acyclic w := ∃ rk, Ranked w rk`.
+  A query about an object of rank `k` needs fuel: leadSpan `4k+1`, dur `4k+2`, reference of its link `4k+1`,
+  start `4k+3`, end and interval `4k+4`. -/
+
+open Qco.Defined in
+/-- **times are defined on a ranked heap**: with all ranks `≤ B`, every fuel `≥ 4 * B + 4` defines start, end and
+    duration of every object (also of the ids beyond the heap, which read as the default object). -/
+theorem start_defined_of_ranked {w : World} {rk : Nat → Nat} {B : Nat} (h : Ranked w rk) (hB : ∀ o, rk o ≤ B) :
+    ∀ o f, 4 * B + 4 ≤ f →
+      (evStart w f o).isSome = true ∧ (evEnd w f o).isSome = true ∧ (evDur w f o).isSome = true := by
+  intro o f hf
+  have := allDef_of_ranked h hB o f hf
+  exact ⟨this.start, this.fin, this.dur⟩
+
+open Qco.Defined in
+/-- … in particular with the fuel the driver uses, when the ranks are bounded by the number of objects and links
+    (e.g. the rank is an enumeration of the objects). -/
+theorem start_defined_with_driver_fuel {w : World} {rk : Nat → Nat} (h : Ranked w rk)
+    (hB : ∀ o, rk o ≤ w.ops.size + w.links.size) (o : Nat) :
+    (evStart w w.fuel o).isSome = true ∧ (evEnd w w.fuel o).isSome = true ∧ (evDur w w.fuel o).isSome = true :=
+  start_defined_of_ranked h hB o w.fuel (by unfold World.fuel; omega)
+
+open Qco.Defined in
+/-- **on a closed acyclic heap the driver's fuel always suffices** (no bound on the ranks needed: the ranks of a
+    closed heap can be compressed to `≤ ops.size`, `Ranked.compress`). -/
+theorem start_defined_of_acyclic {w : World} (h : Acyclic w) (hc : Closed w) (o : Nat) :
+    (evStart w w.fuel o).isSome = true ∧ (evEnd w w.fuel o).isSome = true ∧ (evDur w w.fuel o).isSome = true := by
+  have := allDef_fuel h hc o w.fuel (Nat.le_refl _)
+  exact ⟨this.start, this.fin, this.dur⟩
+
+open Qco.Defined in
+/-- **defined and unique**: on a closed acyclic heap every object has exactly one start time, and the driver's
+    fuel finds it. -/
+theorem start_exists_unique {w : World} (h : Acyclic w) (hc : Closed w) (o : Nat) :
+    ∃ s, evStart w w.fuel o = some s ∧ ∀ s', Start w o s' → s' = s := by
+  obtain ⟨s, hs⟩ := Option.isSome_iff_exists.mp (start_defined_of_acyclic h hc o).1
+  exact ⟨s, hs, fun s' h' => start_well_defined h' ⟨_, hs⟩⟩
+
+/-! #### the builder keeps the certificate
+
+  Covered: the empty heap, `newLink`, `newOp`, `newCircuit`, `add` (every branch of `addToGraph`: kept explicit link,
+  fresh link to the leaf found, fresh empty link), `extend` (group link to the leaves), `copyObj` / `copy`, `addSub` up to
+  a side condition on its last `add`.  Not covered: `applyModifiers` and `flatten` (which can create a cycle, R14). -/
+
+open Qco.Defined in
+theorem empty_heap_certified : Closed ({} : World) ∧ Acyclic ({} : World) :=
+  ⟨empty_closed, ⟨fun _ => 0, empty_ranked _⟩⟩
+
+open Qco.Defined in
+/-- allocating a link changes nothing. -/
+theorem newLink_preserves {w : World} (hc : Closed w) (h : Acyclic w) (L : Link) :
+    Closed (w.newLink L).1 ∧ Acyclic (w.newLink L).1 := by
+  obtain ⟨rk, hrk⟩ := h
+  exact ⟨newLink_closed hc L, ⟨rk, newLink_ranked hc hrk L⟩⟩
+
+open Qco.Defined in
+/-- a new object whose link and graph mention existing objects only gets a rank (on top of everything). -/
+theorem newOp_preserves {w : World} (hc : Closed w) (h : Acyclic w) (op : Op) (hl : op.link < w.links.size)
+    (h1 : ∀ r ∈ (w.lnk op.link).refs, r < w.ops.size) (h2 : ∀ e ∈ op.graph, e.node < w.ops.size) :
+    Closed (w.newOp op).1 ∧ Acyclic (w.newOp op).1 :=
+  ⟨newOp_closed hc op hl h1 h2, newOp_acyclic hc h op h1 h2⟩
+
+open Qco.Defined in
+/-- a new empty circuit (sharing link `0`) keeps every ranking. -/
+theorem newCircuit_preserves {w : World} (hc : Closed w) (h : Acyclic w) (rep : Rep) :
+    Closed (w.newCircuit rep).1 ∧ Acyclic (w.newCircuit rep).1 :=
+  ⟨newCircuit_closed hc rep, newCircuit_acyclic h rep⟩
+
+open Qco.Defined in
+/-- **`add` keeps a ranking** that puts `o` below `c` and above the present nodes of `c` — whatever `addToGraph` does
+    with the link of `o` (keeps it, or replaces it by a fresh link to the leaf found / to nothing). -/
+theorem add_keeps_ranking {w : World} {rk : Nat → Nat} (hc : Closed w) (h : Ranked w rk) (c o : Nat)
+    (ho : o < w.ops.size) (h1 : rk o < rk c) (h2 : ∀ e ∈ (w.op c).graph, rk e.node < rk o) :
+    Closed (w.add c o) ∧ Ranked (w.add c o) rk :=
+  ⟨add_closed hc c o ho, add_ranked hc h c o h1 h2⟩
+
+open Qco.Defined in
+/-- **`add` preserves acyclicity** (a new ranking is constructed) when `o` does not depend on `c` and no node of `c`
+    depends on `o`.  `Reach w x y`: `x` depends on `y` through links and graphs (reflexive-transitive). -/
+theorem add_preserves {w : World} (hc : Closed w) (h : Acyclic w) (c o : Nat) (ho : o < w.ops.size)
+    (hcomp : (w.op c).isComp = true) (hoc : ¬ Reach w o c) (hno : ∀ e ∈ (w.op c).graph, ¬ Reach w e.node o) :
+    Closed (w.add c o) ∧ Acyclic (w.add c o) :=
+  ⟨add_closed hc c o ho, add_acyclic hc h c o hcomp hoc hno⟩
+
+open Qco.Defined in
+/-- the builder's usual case: `o` is new as a target (`Unref`: no link refers to it, no graph contains it) and does
+    not depend on `c`. -/
+theorem add_preserves_fresh {w : World} (hc : Closed w) (h : Acyclic w) (c o : Nat) (ho : o < w.ops.size)
+    (hcomp : (w.op c).isComp = true) (hu : Unref w o) (hoc : ¬ Reach w o c) :
+    Closed (w.add c o) ∧ Acyclic (w.add c o) :=
+  ⟨add_closed hc c o ho, add_acyclic_of_unref hc h c o hcomp hu hoc⟩
+
+open Qco.Defined in
+/-- … and when `c` is a top-level circuit (`Unref` as well) `o ≠ c` is enough. -/
+theorem add_preserves_roots {w : World} (hc : Closed w) (h : Acyclic w) (c o : Nat) (ho : o < w.ops.size)
+    (hcomp : (w.op c).isComp = true) (hu : Unref w o) (huc : Unref w c) (hne : o ≠ c) :
+    Closed (w.add c o) ∧ Acyclic (w.add c o) :=
+  ⟨add_closed hc c o ho, add_acyclic_of_roots hc h c o hcomp hu huc hne⟩
+
+open Qco.Defined in
+/-- **`extend` keeps a ranking** in which the nodes of `other` lie strictly between the nodes of `c` and `c`,
+    increasing in listing order; the group (latest-of) link to the leaves of `c` it hands out is ranked too. -/
+theorem extend_keeps_ranking {w : World} {rk : Nat → Nat} (hc : Closed w) (h : Ranked w rk) (c other : Nat)
+    (h1 : ∀ n ∈ listing (w.op other).graph, rk n < rk c)
+    (h2 : ∀ e ∈ (w.op c).graph, ∀ n ∈ listing (w.op other).graph, rk e.node < rk n)
+    (h3 : (listing (w.op other).graph).Pairwise (fun a b => rk a < rk b)) :
+    Closed (w.extend c other) ∧ Ranked (w.extend c other) rk :=
+  ⟨(extend_ranked hc h c other h1 h2 h3).2, (extend_ranked hc h c other h1 h2 h3).1⟩
+
+open Qco.Defined in
+/-- **without the certificate definedness fails**: `a = Rx180(0)`, `b = Wait(0)` whose links refer to each other —
+    no fuel defines a start time, and the heap has no ranking. -/
+theorem cyclic_undefined_witness :
+    (∀ f, evStart cycWorld f 0 = none ∧ evStart cycWorld f 1 = none) ∧ ¬ Acyclic cycWorld :=
+  ⟨cyc_undefined, cyc_not_acyclic⟩
+
+/-! #### non-vacuity: the worked example of Lemmas/DefinedExample.lean
+
+  `dxWorld` is built with `newCircuit / newLink / newOp / add`: a circuit `c` (id 0) containing `a = Rx90(1)`,
+  the sub-circuit `s` (id 1, with `x = Rx180(0)`, `y = Ry90(0)` FOLLOWED_BY `x`), `d = DispersiveMeasure(1)` JOINED_END
+  with `a`, and `b = CPhase(0,1)` FOLLOWED_BY `s`. -/
+
+theorem getD_of_ge {α} (l : List α) (d : α) {i : Nat} (h : l.length ≤ i) : l.getD i d = d := by
+  simp [List.getD_eq_getElem?_getD, List.getElem?_eq_none h]
+
+open Qco.Defined in
+example : Ranked dxWorld (fun o => dxRank.getD o 0) ∧ (∀ o, dxRank.getD o 0 ≤ 4) ∧ Closed dxWorld :=
+  ⟨dxWorld_ranked, by
+    intro o
+    by_cases ho : o < 7
+    · have : o = 0 ∨ o = 1 ∨ o = 2 ∨ o = 3 ∨ o = 4 ∨ o = 5 ∨ o = 6 := by omega
+      rcases this with rfl | rfl | rfl | rfl | rfl | rfl | rfl <;> decide
+    · rw [getD_of_ge dxRank 0 (Nat.le_of_not_lt ho)]; omega, dxWorld_closed⟩
+
+def dxStartT : List Int := [0, 0, 0, 8, 0, -8, 16]
+def dxLeadT : List Int := [8, 0, 0, 0, 0, 0, 0]
+def dxDurT : List Int := [32, 16, 8, 8, 8, 16, 8]
+
+open Qco.Defined in
+/-- the schedule of the example solves the relation equations. -/
+theorem dxSol : Sol dxLit (fun o => dxStartT.getD o 0) (fun o => dxLeadT.getD o 0) (fun o => dxDurT.getD o 0)
+    (fun l => (dxLit.lnk l).refs.head?) := by
+  have hcases : ∀ o : Nat, o = 0 ∨ o = 1 ∨ o = 2 ∨ o = 3 ∨ o = 4 ∨ o = 5 ∨ o = 6 ∨ 7 ≤ o := by omega
+  have hdef : ∀ o, 7 ≤ o → dxLit.op o = default := fun o ho => op_of_ge dxLit ho
+  have hl0 : listing (dxLit.op 0).graph = [4, 1, 5, 6] := by rw [listing_lit _ (by decide)]; rfl
+  have hh0 : heads (dxLit.op 0).graph = [4, 1] := by unfold heads; rw [sortedEntries_lit _ (by decide)]; rfl
+  have hl1 : listing (dxLit.op 1).graph = [2, 3] := by rw [listing_lit _ (by decide)]; rfl
+  have hh1 : heads (dxLit.op 1).graph = [2] := by unfold heads; rw [sortedEntries_lit _ (by decide)]; rfl
+  refine ⟨?_, ?_, ?_, ?_, fun l _ => rfl, ?_⟩
+  · intro o hc
+    rcases hcases o with rfl | rfl | rfl | rfl | rfl | rfl | rfl | ho
+    · exact absurd hc (by decide)
+    · exact absurd hc (by decide)
+    all_goals first
+      | decide
+      | (simp only [getD_of_ge dxLeadT 0 ho, getD_of_ge dxDurT 0 ho, hdef o ho]; decide)
+  · intro o hc he
+    rcases hcases o with rfl | rfl | rfl | rfl | rfl | rfl | rfl | ho
+    all_goals first
+      | exact absurd he (by decide)
+      | exact absurd hc (by decide)
+      | (rw [hdef o ho] at hc; exact absurd hc (by decide))
+  · intro o hc he
+    rcases hcases o with rfl | rfl | rfl | rfl | rfl | rfl | rfl | ho
+    · rw [hl0, hh0]; decide
+    · rw [hl1, hh1]; decide
+    all_goals first
+      | exact absurd hc (by decide)
+      | (rw [hdef o ho] at hc; exact absurd hc (by decide))
+  · intro o
+    rcases hcases o with rfl | rfl | rfl | rfl | rfl | rfl | rfl | ho
+    all_goals first
+      | decide
+      | (simp only [getD_of_ge dxStartT 0 ho, getD_of_ge dxDurT 0 ho, hdef o ho]; decide)
+  · intro l hm
+    have hnm : ∀ l, (dxLit.lnk l).multi = false := by
+      intro l
+      by_cases hl : l < 8
+      · have : l = 0 ∨ l = 1 ∨ l = 2 ∨ l = 3 ∨ l = 4 ∨ l = 5 ∨ l = 6 ∨ l = 7 := by omega
+        rcases this with rfl | rfl | rfl | rfl | rfl | rfl | rfl | rfl <;> decide
+      · unfold World.lnk
+        have : ¬ l < dxLit.links.size := hl
+        simp [Array.getD, this]; rfl
+    rw [hnm l] at hm; cases hm
+
+open Qco.Defined in
+/-- **the example, end to end**: every start time of the built heap is defined with the driver's fuel (by
+    `start_defined_of_acyclic`) and equals the listed schedule (by `schedule_unique`): `d` JOINED_END with `a` starts at
+    `-8 = 8 - 16`, the sub-circuit `s` at `0` with duration `16`, `b` behind it at `16`, the circuit lasts `32`. -/
+theorem example_times_defined (o : Nat) :
+    evStart dxWorld dxWorld.fuel o = some (dxStartT.getD o 0) ∧ evDur dxWorld dxWorld.fuel o = some (dxDurT.getD o 0) := by
+  rw [dxWorld_eq]
+  obtain ⟨hs, _, hd⟩ := start_defined_of_acyclic ⟨_, dxLit_ranked⟩ dxLit_closed o
+  obtain ⟨s, hs⟩ := Option.isSome_iff_exists.mp hs
+  obtain ⟨d, hd⟩ := Option.isSome_iff_exists.mp hd
+  obtain ⟨_, _, uD, uS, _, _⟩ := schedule_unique dxSol dxLit.fuel
+  rw [hs, hd, uS o s hs, uD o d hd]
+  exact ⟨rfl, rfl⟩
+
+open Qco.Defined in
+example : Closed (dxLit.newOp { cls := .wait, qs := [0], link := 3 }).1 ∧
+    Acyclic (dxLit.newOp { cls := .wait, qs := [0], link := 3 }).1 :=
+  newOp_preserves dxLit_closed ⟨_, dxLit_ranked⟩ _ (by decide) (by decide) (by decide)
+
+open Qco.Defined in
+/-- the last step of the build program (`c.add(b)`, heap `dxS6`) meets the hypotheses of all four `add` theorems. -/
+example : Closed dxS6 ∧ Ranked dxS6 (fun o => dxRank.getD o 0) ∧ 6 < dxS6.ops.size ∧ (dxS6.op 0).isComp = true ∧
+    Unref dxS6 6 ∧ Unref dxS6 0 ∧ 6 ≠ 0 ∧ ¬ Reach dxS6 6 0 ∧ (∀ e ∈ (dxS6.op 0).graph, ¬ Reach dxS6 e.node 6) ∧
+    dxRank.getD 6 0 < dxRank.getD 0 0 ∧ (∀ e ∈ (dxS6.op 0).graph, dxRank.getD e.node 0 < dxRank.getD 6 0) := by
+  have hu6 : Unref dxS6 6 := unref_of_check dxS6 6 (by decide)
+  have hu0 : Unref dxS6 0 := unref_of_check dxS6 0 (by decide)
+  refine ⟨closed_of_check dxS6 (by decide), ranked_of_check dxS6 dxRank (by decide) (by decide), by decide, by decide,
+    hu6, hu0, by decide, fun h => absurd (reach_unref hu0 h) (by decide), ?_, by decide, by decide⟩
+  intro e he h
+  have h6 : e.node = 6 := reach_unref hu6 h
+  exact hu6 0 (Or.inr ⟨by decide, e, he, h6⟩)
+
+/-- a heap for `extend`: `c` (id 0) with node `2`; `other` (id 1) with nodes `3` and `4` (`4` FOLLOWED_BY `3`). -/
+def exExtend : World :=
+  { ops := #[{ cls := .comp, graph := [⟨2, none, [0]⟩] },
+             { cls := .comp, graph := [⟨3, none, [0]⟩, ⟨4, some 3, [0, 0]⟩] },
+             { cls := .rx180, qs := [0], dur := .glob .mw, link := 1 },
+             { cls := .rx180, qs := [0], dur := .glob .mw, link := 2 },
+             { cls := .ry90, qs := [0], dur := .glob .mw, link := 3 }],
+    links := #[{}, {}, {}, { refs := [3] }] }
+
+open Qco.Defined in
+example : Closed exExtend ∧ Ranked exExtend (fun o => [3, 3, 0, 1, 2].getD o 0) ∧
+    (∀ n ∈ listing (exExtend.op 1).graph, [3, 3, 0, 1, 2].getD n 0 < [3, 3, 0, 1, 2].getD 0 0) ∧
+    (∀ e ∈ (exExtend.op 0).graph, ∀ n ∈ listing (exExtend.op 1).graph,
+      [3, 3, 0, 1, 2].getD e.node 0 < [3, 3, 0, 1, 2].getD n 0) ∧
+    (listing (exExtend.op 1).graph).Pairwise (fun a b => [3, 3, 0, 1, 2].getD a 0 < [3, 3, 0, 1, 2].getD b 0) := by
+  have hl : listing (exExtend.op 1).graph = [3, 4] := by rw [listing_lit _ (by decide)]; rfl
+  rw [hl]
+  exact ⟨closed_of_check _ (by decide), ranked_of_check _ _ (by decide) (by decide), by decide, by decide, by decide⟩
+
+/-! #### `copy` and `add_sub_circuit` (Lemmas/DefinedCopy.lean) -/
+
+open Qco.Defined in
+/-- **`copy` preserves the certificate**, with no side condition: the copy allocates new objects only, a new object
+    refers to copies completed earlier, every `add` inside the copy adds an object nothing refers to yet to a composite
+    nothing refers to yet, and the fuel `depthFuel` never runs out on a closed acyclic heap.  The result is a new
+    object to which nothing refers. -/
+theorem copy_preserves {w : World} (hc : Closed w) (h : Acyclic w) (o : Nat) (ho : o < w.ops.size) :
+    Closed (w.copy o).1 ∧ Acyclic (w.copy o).1 ∧ Unref (w.copy o).1 (w.copy o).2 ∧
+      w.ops.size ≤ (w.copy o).2 ∧ (w.copy o).2 < (w.copy o).1.ops.size :=
+  copy_certified hc h o ho
+
+open Qco.Defined in
+/-- the general form: `copyObj` with any lookup whose values exist and any fuel that is not exhausted below `o`
+    (`depthOk`), with the frame (old objects and links untouched; old objects not named by the lookup stay
+    unreferenced). -/
+theorem copyObj_preserves {w : World} (hc : Closed w) (h : Acyclic w) (f o : Nat) (lk : Lookup)
+    (hlk : LkOk w lk) (ho : o < w.ops.size) (hd : depthOk w f o) : CopyPost w lk (w.copyObj f o lk) :=
+  copyObj_post f w o lk hc h hlk ho hd
+
+/- full statement wanted for `addSub`:  Closed w → Acyclic w → c, sub existing, c composite → Closed ∧ Acyclic of
+   `(w.addSub c sub).1`.  Proved (i) in full for heaps without group links (`addSub_preserves`, below), and (ii) for
+   arbitrary heaps with the extra hypothesis `hnc`: in the heap after the copy, the copy does not depend on `c`
+   (`addSub_preserves_partial`).  With group links the copy can depend on `c` through the initial lookup entry
+   `sub ↦ c`: a kept group link of a node inside `sub` one of whose members is value-equal to `sub` (conflation R3). -/
+open Qco.Defined in
+theorem addSub_preserves_partial {w : World} (hc : Closed w) (h : Acyclic w) (c sub : Nat) (hcl : c < w.ops.size)
+    (hsub : sub < w.ops.size) (hcomp : (w.op c).isComp = true)
+    (hnc : ¬ Reach (w.copyObj w.depthFuel sub [(w.eqKey sub, c)]).1
+      (w.copyObj w.depthFuel sub [(w.eqKey sub, c)]).2.1 c) :
+    Closed (w.addSub c sub).1 ∧ Acyclic (w.addSub c sub).1 :=
+  addSub_certified hc h c sub hcl hsub hcomp hnc
+
+/-- a heap for `addSub`: circuit `c` (id 0) with node `3`, circuit `sub` (id 1) with node `2`. -/
+def exSub : World :=
+  { ops := #[{ cls := .comp, graph := [⟨3, none, [0]⟩] },
+             { cls := .comp, graph := [⟨2, none, [0]⟩] },
+             { cls := .rx180, qs := [0], dur := .glob .mw, link := 1 },
+             { cls := .ry90, qs := [1], dur := .glob .mw, link := 2 }],
+    links := #[{}, {}, {}] }
+
+open Qco.Defined in
+example : Closed exSub ∧ Acyclic exSub ∧ 0 < exSub.ops.size ∧ 1 < exSub.ops.size ∧ (exSub.op 0).isComp = true ∧
+    ¬ Reach (exSub.copyObj exSub.depthFuel 1 [(exSub.eqKey 1, 0)]).1
+      (exSub.copyObj exSub.depthFuel 1 [(exSub.eqKey 1, 0)]).2.1 0 := by
+  refine ⟨closed_of_check _ (by decide), ⟨_, ranked_of_check exSub [1, 1, 0, 0] (by decide) (by decide)⟩,
+    by decide, by decide, by decide, ?_⟩
+  intro hr
+  have hu : Unref (exSub.copyObj exSub.depthFuel 1 [(exSub.eqKey 1, 0)]).1 0 :=
+    unref_of_check _ 0 (by decide +kernel)
+  have h0 := reach_unref hu hr
+  have h4 : (exSub.copyObj exSub.depthFuel 1 [(exSub.eqKey 1, 0)]).2.1 = 4 := by decide +kernel
+  rw [h4] at h0; cases h0
+
+open Qco.Defined in
+/-- the copy of the sub-circuit `s` of the worked example is certified. -/
+example : Closed (dxLit.copy 1).1 ∧ Acyclic (dxLit.copy 1).1 :=
+  ⟨(copy_preserves dxLit_closed ⟨_, dxLit_ranked⟩ 1 (by decide)).1,
+   (copy_preserves dxLit_closed ⟨_, dxLit_ranked⟩ 1 (by decide)).2.1⟩
+
+/-! #### heaps without group links: every build step of the driver except `apply` / `flatten` keeps the certificate
+
+  `Certified w`: closed, acyclic, every link is a plain relation link (`multi = false`, at most one reference).
+  For a plain link `addToGraph` leaves references to nodes of the graph only (a kept explicit link refers to a node
+  of the graph, otherwise the link is replaced), so what the added object referred to before does not matter. -/
+
+open Qco.Defined in
+/-- **`add_sub_circuit` preserves the certificate** on heaps without group links, with no side condition. -/
+theorem addSub_preserves {w : World} (h : Certified w) (c sub : Nat) (hcl : c < w.ops.size)
+    (hsub : sub < w.ops.size) (hcomp : (w.op c).isComp = true) : Certified (w.addSub c sub).1 :=
+  addSub_certified' h c sub hcl hsub hcomp
+
+open Qco.Defined in
+/-- **the driver's `op` command** (allocate the plain link `L`, allocate the operation with that link, `add` it to
+    circuit `c`) preserves the certificate — whatever existing object `L` refers to and wherever `c` sits. -/
+theorem op_step_preserves {w : World} (h : Certified w) (L : Link) (op : Op) (c : Nat) (hL : SingleLink L)
+    (hLr : ∀ r ∈ L.refs, r < w.ops.size) (hopl : op.link = w.links.size) (hopg : op.graph = [])
+    (hcl : c < w.ops.size) (hcomp : (w.op c).isComp = true) :
+    Certified (((w.newLink L).1.newOp op).1.add c w.ops.size) :=
+  opStep_certified h L op c hL hLr hopl hopg hcl hcomp
+
+open Qco.Defined in
+/-- the empty heap, a new circuit and `copy` keep it as well. -/
+theorem certified_steps :
+    Certified ({} : World) ∧
+    (∀ (w : World) (rep : Rep), Certified w → Certified (w.newCircuit rep).1) ∧
+    (∀ (w : World) (o : Nat), Certified w → o < w.ops.size → Certified (w.copy o).1) :=
+  ⟨certified_empty, fun _ rep h => newCircuit_certified h rep, fun _ o h ho => copy_certified_single h o ho⟩
+
+open Qco.Defined in
+/-- **every heap built by `new` / `op` (plain relations) / `sub` / `copy` has all its times defined** with the driver's
+    fuel, and uniquely so. -/
+theorem certified_times_defined {w : World} (h : Certified w) (o : Nat) :
+    ∃ s d, evStart w w.fuel o = some s ∧ evDur w w.fuel o = some d ∧ evEnd w w.fuel o = some (s + d) ∧
+      ∀ s', Start w o s' → s' = s := by
+  obtain ⟨hs, he, hd⟩ := start_defined_of_acyclic h.acyclic h.closed o
+  obtain ⟨s, hs⟩ := Option.isSome_iff_exists.mp hs
+  obtain ⟨d, hd⟩ := Option.isSome_iff_exists.mp hd
+  obtain ⟨e, he⟩ := Option.isSome_iff_exists.mp he
+  obtain ⟨s', d', hs', hd', rfl⟩ := end_eq_start_add_duration ⟨_, he⟩
+  have e1 : s' = s := start_well_defined hs' ⟨_, hs⟩
+  have e2 : d' = d := DurV.unique hd' ⟨_, hd⟩
+  subst e1; subst e2
+  exact ⟨s', d', hs, hd, he, fun s'' h'' => start_well_defined h'' ⟨_, hs⟩⟩
+
+open Qco.Defined in
+/-- non-vacuity of `op_step_preserves`: the last step of the worked example (`b = CPhase(0,1); c.add(b)` on the heap
+    `dxS5'`) is such a step and yields the final heap `dxLit`. -/
+example : Certified dxS5' ∧ ((dxS5'.newLink {}).1.newOp { cls := .cphase, qs := [0, 1], dur := .glob .fl, link := 6 }).1.add 0
+    dxS5'.ops.size = dxLit ∧ Certified dxLit := by
+  have hC : Certified dxS5' := ⟨closed_of_check _ (by decide), ⟨_, ranked_of_check dxS5' [4, 2, 0, 1, 0, 1] (by decide) (by decide)⟩,
+    singleLinks_of_check _ (by decide)⟩
+  refine ⟨hC, dxStep6, ?_⟩
+  have := op_step_preserves hC {} { cls := .cphase, qs := [0, 1], dur := .glob .fl, link := 6 } 0 ⟨rfl, by decide⟩
+    (fun r hr => by cases hr) (by decide) rfl (by decide) (by decide)
+  rw [show ((dxS5'.newLink {}).1.newOp { cls := .cphase, qs := [0, 1], dur := .glob .fl, link := 6 }).1.add 0
+    dxS5'.ops.size = dxLit from dxStep6] at this
+  exact this
+
+open Qco.Defined in
+/-- non-vacuity of `addSub_preserves`. -/
+example : Certified exSub ∧ 0 < exSub.ops.size ∧ 1 < exSub.ops.size ∧ (exSub.op 0).isComp = true :=
+  ⟨⟨closed_of_check _ (by decide), ⟨_, ranked_of_check exSub [1, 1, 0, 0] (by decide) (by decide)⟩,
+    singleLinks_of_check _ (by decide)⟩, by decide, by decide, by decide⟩
 
 /-! ### tie to the SOURCE TEXT (DESIGN.md §2.3b)
 
